@@ -7,38 +7,61 @@ import (
 	"golang.org/x/tools/go/ssa"
 )
 
+// Write kinds: a heap written only at references allocated by the writer itself (wFresh) keeps its
+// contents at all older references; wFull may change anything.
+const (
+	wFresh = 1
+	wFull  = 2
+)
+
+type writeSetT map[string]int
+
+func (w writeSetT) add(name string, kind int) {
+	if w[name] < kind {
+		w[name] = kind
+	}
+}
+
+func (w writeSetT) names() map[string]bool {
+	m := map[string]bool{}
+	for k := range w {
+		m[k] = true
+	}
+	return m
+}
+
 // instrWrites gives the modelled locations an instruction may write (heaps by name, "$now",
 // "$allocTop", "ghost:<name>"), using callee contracts (modifies) or syntactic write sets.
-func instrWrites(e *Engine, instr ssa.Instruction) map[string]bool {
-	ws := map[string]bool{}
+func instrWrites(e *Engine, instr ssa.Instruction) writeSetT {
+	ws := writeSetT{}
 	switch x := instr.(type) {
 	case *ssa.Store:
 		addrWrites(x.Addr, ws)
 	case *ssa.MapUpdate:
 		if mt, ok := unalias(x.Map.Type()).Underlying().(*types.Map); ok {
 			h, v := mapHeapNames(mt)
-			ws[h] = true
-			ws[v] = true
+			ws.add(h, wFull)
+			ws.add(v, wFull)
 		}
 	case *ssa.Alloc:
 		elem := x.Type().(*types.Pointer).Elem()
 		if n, ok := isStructVal(elem); ok && namedPath(elem) != "time.Time" {
-			structInitWrites(n, ws, 0)
+			structInitWrites(n, ws, 0, wFresh)
 		}
 	case *ssa.MakeSlice:
 		if !isByteSlice(x.Type()) {
-			ws[elemHeapName(sortOf(x.Type().Underlying().(*types.Slice).Elem()))] = true
+			ws.add(elemHeapName(sortOf(x.Type().Underlying().(*types.Slice).Elem())), wFresh)
 		}
 	case *ssa.MakeMap:
 		if mt, ok := unalias(x.Type()).Underlying().(*types.Map); ok {
 			h, _ := mapHeapNames(mt)
-			ws[h] = true
+			ws.add(h, wFresh)
 		}
 	case *ssa.UnOp:
 		// struct loads create snapshots
 		if x.Op.String() == "*" {
 			if n, ok := isStructVal(x.Type()); ok && namedPath(x.Type()) != "time.Time" {
-				structInitWrites(n, ws, 0)
+				structInitWrites(n, ws, 0, wFresh)
 			}
 		}
 	case ssa.CallInstruction:
@@ -47,7 +70,7 @@ func instrWrites(e *Engine, instr ssa.Instruction) map[string]bool {
 	return ws
 }
 
-func structInitWrites(n *types.Named, ws map[string]bool, depth int) {
+func structInitWrites(n *types.Named, ws writeSetT, depth int, kind int) {
 	s, ok := n.Underlying().(*types.Struct)
 	if !ok || depth > 3 {
 		return
@@ -57,56 +80,71 @@ func structInitWrites(n *types.Named, ws map[string]bool, depth int) {
 	}
 	for i := 0; i < s.NumFields(); i++ {
 		f := s.Field(i)
-		ws[structHeapName(n, f.Name())] = true
+		ws.add(structHeapName(n, f.Name()), kind)
 		if nn, ok := isNestedStructField(f.Type()); ok {
-			structInitWrites(nn, ws, depth+1)
+			structInitWrites(nn, ws, depth+1, kind)
 		}
 	}
 }
 
-func addrWrites(addr ssa.Value, ws map[string]bool) {
+// freshBase reports whether the address is rooted in an object allocated by this very function
+// activation (a local Alloc), through any chain of nested-struct field addresses.
+func freshBase(v ssa.Value) bool {
+	switch a := v.(type) {
+	case *ssa.Alloc:
+		return true
+	case *ssa.FieldAddr:
+		return freshBase(a.X)
+	}
+	return false
+}
+
+func addrWrites(addr ssa.Value, ws writeSetT) {
 	switch a := addr.(type) {
 	case *ssa.FieldAddr:
 		n, s := structOf(a.X.Type())
 		if s != nil {
+			kind := wFull
+			if freshBase(a.X) {
+				kind = wFresh
+			}
 			f := s.Field(a.Field)
 			if nn, ok := isNestedStructField(f.Type()); ok {
-				structInitWrites(nn, ws, 0) // whole-struct assignment
+				structInitWrites(nn, ws, 0, kind) // whole-struct assignment
 			} else {
-				ws[structHeapName(n, f.Name())] = true
+				ws.add(structHeapName(n, f.Name()), kind)
 			}
 		}
 	case *ssa.IndexAddr:
 		if st, ok := unalias(a.X.Type()).Underlying().(*types.Slice); ok {
-			ws[elemHeapName(sortOf(st.Elem()))] = true
+			ws.add(elemHeapName(sortOf(st.Elem())), wFull)
 		}
-	case *ssa.Alloc, *ssa.Global, *ssa.FreeVar:
+	case *ssa.Alloc:
+		elem := a.Type().(*types.Pointer).Elem()
+		if n, ok := isStructVal(elem); ok && namedPath(elem) != "time.Time" {
+			structInitWrites(n, ws, 0, wFresh)
+		}
+	case *ssa.Global, *ssa.FreeVar:
 		// cells, not heaps
-		if al, ok := a.(*ssa.Alloc); ok {
-			elem := al.Type().(*types.Pointer).Elem()
-			if n, ok := isStructVal(elem); ok && namedPath(elem) != "time.Time" {
-				structInitWrites(n, ws, 0)
-			}
-		}
 	default:
 		// store through a pointer value of unknown provenance
 		if pt, ok := unalias(addr.Type()).Underlying().(*types.Pointer); ok {
 			if n, ok := isStructVal(pt.Elem()); ok && namedPath(pt.Elem()) != "time.Time" {
-				structInitWrites(n, ws, 0)
+				structInitWrites(n, ws, 0, wFull)
 			} else {
-				ws[boxHeapName(sortOf(pt.Elem()))] = true
+				ws.add(boxHeapName(sortOf(pt.Elem())), wFull)
 			}
 		}
 	}
 }
 
-func callWrites(e *Engine, c *ssa.CallCommon, ws map[string]bool) {
+func callWrites(e *Engine, c *ssa.CallCommon, ws writeSetT) {
 	if c.IsInvoke() {
 		rtype := unalias(c.Value.Type())
 		if n, ok := rtype.(*types.Named); ok {
 			if spec := e.findIfaceSpec(n, c.Method.Name()); spec != nil {
 				for _, m := range spec.Modifies {
-					ws[e.resolveModifies(spec.Pkg, m)] = true
+					ws.add(e.resolveModifies(spec.Pkg, m), wFull)
 				}
 			}
 			key := n.Obj().Name() + "." + c.Method.Name()
@@ -114,7 +152,7 @@ func callWrites(e *Engine, c *ssa.CallCommon, ws map[string]bool) {
 				key = shortPkg(n.Obj().Pkg().Path()) + "." + key
 			}
 			for _, w := range ifaceModelWrites[key] {
-				ws[w] = true
+				ws.add(w, wFull)
 			}
 		}
 		return
@@ -123,17 +161,17 @@ func callWrites(e *Engine, c *ssa.CallCommon, ws map[string]bool) {
 		switch b.Name() {
 		case "append":
 			if st, ok := unalias(c.Args[0].Type()).Underlying().(*types.Slice); ok && !isByteSlice(c.Args[0].Type()) {
-				ws[elemHeapName(sortOf(st.Elem()))] = true
-				ws["$allocTop"] = true
+				ws.add(elemHeapName(sortOf(st.Elem())), wFull)
+				ws.add("$allocTop", wFull)
 			}
 		case "copy":
 			if st, ok := unalias(c.Args[0].Type()).Underlying().(*types.Slice); ok && !isByteSlice(c.Args[0].Type()) {
-				ws[elemHeapName(sortOf(st.Elem()))] = true
+				ws.add(elemHeapName(sortOf(st.Elem())), wFull)
 			}
 		case "delete":
 			if mt, ok := unalias(c.Args[0].Type()).Underlying().(*types.Map); ok {
 				h, _ := mapHeapNames(mt)
-				ws[h] = true
+				ws.add(h, wFull)
 			}
 		}
 		return
@@ -146,13 +184,12 @@ func callWrites(e *Engine, c *ssa.CallCommon, ws map[string]bool) {
 		callee = v.Fn.(*ssa.Function)
 	}
 	if callee == nil {
-		// func value: field contract?
 		return
 	}
 	mname := calleeModelName(callee)
 	if w, ok := modelWrites[mname]; ok {
 		for _, x := range w {
-			ws[x] = true
+			ws.add(x, wFull)
 		}
 		return
 	}
@@ -163,39 +200,48 @@ func callWrites(e *Engine, c *ssa.CallCommon, ws map[string]bool) {
 		return
 	}
 	if spec := e.specs[funcDisplayName(callee)]; spec != nil && !spec.Inline {
+		declared := map[string]bool{}
 		for _, m := range spec.Modifies {
-			ws[e.resolveModifies(spec.Pkg, m)] = true
+			h := e.resolveModifies(spec.Pkg, m)
+			declared[h] = true
+			ws.add(h, wFull)
 		}
-		// fresh-object writes of the callee also count as writes of the heap for havoc purposes
+		// everything else the callee writes is confined to fresh objects (its frame obligation)
 		for h := range e.writeSet(callee) {
-			ws[h] = true
+			if !declared[h] {
+				if strings.HasPrefix(h, "$") || strings.HasPrefix(h, "ghost:") {
+					ws.add(h, wFull)
+				} else {
+					ws.add(h, wFresh)
+				}
+			}
 		}
 		return
 	}
-	for h := range e.writeSet(callee) {
-		ws[h] = true
+	for h, k := range e.writeSet(callee) {
+		ws.add(h, k)
 	}
 }
 
 // writeSet computes (memoised, recursion-safe) the syntactic write set of a repo function.
-func (e *Engine) writeSet(fn *ssa.Function) map[string]bool {
+func (e *Engine) writeSet(fn *ssa.Function) writeSetT {
 	if o := fn.Origin(); o != nil {
 		fn = o
 	}
 	if ws, ok := e.writeSets[fn]; ok {
 		return ws
 	}
-	ws := map[string]bool{}
+	ws := writeSetT{}
 	e.writeSets[fn] = ws // break recursion
 	for _, b := range fn.Blocks {
 		for _, instr := range b.Instrs {
-			for h := range instrWrites(e, instr) {
-				ws[h] = true
+			for h, k := range instrWrites(e, instr) {
+				ws.add(h, k)
 			}
 			if mc, ok := instr.(*ssa.MakeClosure); ok {
 				// closures created here may be invoked later by anyone
-				for h := range e.writeSet(mc.Fn.(*ssa.Function)) {
-					ws[h] = true
+				for h, k := range e.writeSet(mc.Fn.(*ssa.Function)) {
+					ws.add(h, k)
 				}
 			}
 		}
@@ -235,7 +281,7 @@ func (e *Engine) designatorSort(pkg, m string) string {
 func (e *Engine) resolveModifies(pkg, m string) string {
 	m = strings.TrimSpace(m)
 	switch {
-	case strings.HasPrefix(m, "$"), strings.HasPrefix(m, "ghost:"), strings.HasPrefix(m, "F_"), strings.HasPrefix(m, "EH_"), strings.HasPrefix(m, "MH_"), strings.HasPrefix(m, "BOX_"), strings.HasPrefix(m, "DS_"), strings.HasPrefix(m, "AP_"):
+	case strings.HasPrefix(m, "$"), strings.HasPrefix(m, "ghost:"), strings.HasPrefix(m, "F_"), strings.HasPrefix(m, "EH_"), strings.HasPrefix(m, "MH_"), strings.HasPrefix(m, "BOX_"), strings.HasPrefix(m, "DS_"), strings.HasPrefix(m, "AP_"), strings.HasPrefix(m, "AT_"):
 		return m
 	case strings.HasPrefix(m, "elems(") && strings.HasSuffix(m, ")"):
 		return elemHeapName(specSort(m[6 : len(m)-1]))
